@@ -39,6 +39,16 @@ CLAIMED = {
     level="Every path to object creation in Quaternion/QuaternionArray/DCM must pass the gates that make the class invariant ('every object is a valid rotation') hold, with the zero test in the only form that is both exact and NaN-safe; the SO(3) gates must conjoin det and orthogonality tests; +,- re-enter the constructor. The acceptance boundary set by NumPy's default tolerances is not evaluated.",
     note="Gate forms are classified syntactically (table in props/c11.py); AVN proves sum q^2 = 1 for Quaternion.from_rpy.",
     ref="DESIGN.md §2 C11"),
+ "C14": dict(
+    technique="table/data agreement rules (model-selection thresholds vs COF headers, packed g/h index agreement of loader/scaler/reader, loop bounds, no truncation of dt) plus an exact AVN comparison of the extracted scaling+synthesis code at degree 3 with symbolic Gauss coefficients against the closed-form Schmidt semi-normalised synthesis",
+    level="Equality with an independent evaluator for all inputs is numerical and not claimed. Claimed: the structural necessary conditions (right file for each date, writer/reader index agreement, full loop ranges, secular-variation time) and an exact polynomial identity of the code's recursion and sums with the textbook synthesis up to degree 3 for symbolic coefficients, radius, latitude and longitude, which any indexing/recursion/sign slip in the uniform loops breaks.",
+    note="Degrees 4-12 rely on loop uniformity; geodetic->spherical conversion and the polar special case are not covered; real arithmetic.",
+    ref="DESIGN.md §2 C14"),
+ "C15": dict(
+    technique="typestate (RAW/SCALED coefficient tables) and must-call dataflow over magnetic_field/reset_coefficients, truthiness lint for zero-containing numeric parameters, value-numbered derived elements, guarded division by cos(latitude), AVN involution of the NED<->ENU map",
+    level="History independence is a typestate property: every path to the in-place Schmidt scaling must be dominated by a reload, and every reload path must refresh date, epoch and coefficients together. Entry-point agreement, element consistency and the treatment of latitude/longitude 0 are effect/dataflow facts.",
+    note="Pole finiteness beyond the guard, +/-180 degree equality and calendar rounding are not decided.",
+    ref="DESIGN.md §2 C15"),
 }
 
 NOT_YET = "check not built yet in this session (work in progress; see DESIGN.md §2 for the planned static rules)"
